@@ -57,8 +57,16 @@ theorem gfact_wSeqSt {c : Core} (hg : GFact c) {v : Nat} (hd : c.dirty = true)
     simp only [List.length_append, List.length_singleton]
     simp only [upd_apply] at hs
     split at hs
-    · omega
-    · have := g10 j i hj hs; omega
+    · rename_i e
+      have : i = c.sent.length := by omega
+      subst this; exact ⟨by omega, by omega, e.symm⟩
+    · rename_i e
+      have ⟨a, b, d⟩ := g10 j i hj hs
+      refine ⟨by omega, ?_, d⟩
+      -- the oldest index of the window lives in the slot that is being overwritten
+      by_cases hb : c.sent.length = i + c.cap
+      · exfalso; apply e; rw [← d, hb]; simp
+      · omega
   · intro r
     have ⟨a, b⟩ := g11 r
     refine ⟨a, ?_⟩
